@@ -33,13 +33,42 @@ pub fn answer(t: &[&str]) -> String {
                 for b in ck {
                     h.push_u64(*b as u64);
                 }
+                // implementation-vs-property (C20), independent of the Lean model: the G1 elements are consecutive powers of
+                // ONE secret matching the G2 pair: P_0 = g, no identity, e(P_{i+1}, h) = e(P_i, [x]h) for every i
+                let cons = (|| {
+                    use dusk_bls12_381::{pairing, G1Affine, G2Affine};
+                    let g1 = |b: &[u8]| -> Option<G1Affine> { Option::from(G1Affine::from_compressed(&<[u8; 48]>::try_from(b).ok()?)) };
+                    let g2 = |b: &[u8]| -> Option<G2Affine> { Option::from(G2Affine::from_compressed(&<[u8; 96]>::try_from(b).ok()?)) };
+                    let (hh, xh) = match (g2(&ok[48..144]), g2(&ok[144..240])) {
+                        (Some(a), Some(b)) => (a, b),
+                        _ => return "bad@opening-key".to_string(),
+                    };
+                    let pts: Option<Vec<G1Affine>> = ck.chunks(48).map(|c| g1(c)).collect();
+                    let pts = match pts {
+                        Some(p) => p,
+                        None => return "bad@decode".to_string(),
+                    };
+                    if pts.is_empty() || Some(pts[0]) != g1(&ok[..48]) {
+                        return "bad@0".to_string();
+                    }
+                    for i in 0..pts.len() {
+                        if bool::from(pts[i].is_identity()) {
+                            return format!("bad@identity-{}", i);
+                        }
+                        if i + 1 < pts.len() && pairing(&pts[i + 1], &hh) != pairing(&pts[i], &xh) {
+                            return format!("bad@{}", i + 1);
+                        }
+                    }
+                    "ok".to_string()
+                })();
                 format!(
-                    "g={} h={} xh={} n={} hk={}",
+                    "g={} h={} xh={} n={} hk={} cons={}",
                     bytes_hex(&ok[..48]),
                     bytes_hex(&ok[48..144]),
                     bytes_hex(&ok[144..240]),
                     ck.len() / 48,
-                    h.hex()
+                    h.hex(),
+                    cons
                 )
             }
             Some(Err(e)) => err_name(&e),
